@@ -325,9 +325,9 @@ class LinComb:
             raise ValueError(str(self.value) + " is not properly divisible by " + str(other))
 
         if isinstance(other, LinComb):
-            if other.value == 0:
+            if other.value == 0 and not ignore_errors():
                 raise ValueError("Division by zero")
-            elif is_guard() and (self.value % other.value == 0):
+            elif other.value != 0 and is_guard() and (self.value % other.value == 0):
                 res = PrivVal(self.value // other.value)
             elif ignore_errors():
                 res = PrivVal(0)
@@ -367,9 +367,9 @@ class LinComb:
             divisor = ConstVal(divisor)
 
         if isinstance(divisor, LinComb):
-            if divisor.value == 0:
+            if divisor.value == 0 and not ignore_errors():
                 raise ValueError("Division by zero")
-            quo = PrivVal(self.value // divisor.value)
+            quo = PrivVal(self.value // divisor.value if divisor.value != 0 else 0)
             res = quo * divisor
             rem = PrivVal(self.value - res.value)
 
